@@ -4,6 +4,8 @@ import json, os, re
 V = os.path.dirname(os.path.dirname(os.path.abspath(__file__)))
 rows = ["| seeded change | detected by | how |", "|---|---|---|"]
 for sid in sorted(os.listdir(os.path.join(V, "seeded"))):
+    if not os.path.isdir(os.path.join(V, "seeded", sid)):
+        continue
     m = json.load(open(os.path.join(V, "seeded", sid, "meta.json")))
     rows.append("| %s | %s | %s |" % (sid, m["caught_by"], m["how_caught"].replace("|", "/")))
 p = os.path.join(V, "DESIGN.md")
